@@ -70,6 +70,29 @@ def main():
         open(os.path.join(CORPUS, 'synth', '%03d.ttf' % i), 'wb').write(f)
         json.dump(case, open(os.path.join(CORPUS, 'synth', '%03d.json' % i), 'w'))
         synth.append(('synth%03d' % i, f, case))
+    # compressed twins (Silf v5 / Glat v3 stored LZ4-compressed with a seeded random valid encoding): seeds for the
+    # decompression paths of the loader (C01, C14, C16)
+    import lz4ref, random, struct
+    rngz = random.Random(11)
+    nz = 0
+    for i, case in enumerate(synth_specs(12, seed=777)):
+        spec = dict(case['spec'], silf_version=0x00050000, glat_version=3)
+        try:
+            t = fontsynth.build_tables(spec)
+        except ValueError:
+            continue
+        ok = True
+        for tag in (b'Silf', b'Glat'):
+            blk, st = lz4ref.encode_with(t[tag], lambda kind, lo, hi: rngz.randint(lo, hi))
+            if len(blk) >= len(t[tag]) or len(blk) < 13:
+                ok = False; break
+            t[tag] = t[tag][:4] + struct.pack('>I', (1 << 27) | len(t[tag])) + blk
+        if not ok:
+            continue
+        f = sfnt.build(t)
+        open(os.path.join(CORPUS, 'synth', 'z%03d.ttf' % i), 'wb').write(f)
+        synth.append(('synthz%03d' % i, f, case))
+        nz += 1
     nseed = 0
     for name, f, case in synth:
         txt = bytes((c - 0x61) % 26 for pr in case['probes'] for c in pr['text'])[:48]
